@@ -135,8 +135,22 @@ def limit_off_case():
     return None
 
 
+def inline_comment_on_continued_line():
+    """an inline comment (ordinary or doc) on a line that is continued by the next one: the continuation must survive, and '!' inside a literal is not a comment"""
+    fixed = ("      subroutine foo(a,  ! first\n     &  b)\n      integer a,  !! doc a\n     & b\n      character(8) :: s = 'x!y'  ! c\n      s = 'abc' //   ! note\n     &  'd!e'\n"
+             "      end subroutine foo\n")
+    free = "subroutine foo(a, &  ! first\n  b)\ninteger a, &  !! doc a\n b\ncharacter(8) :: s = 'x!y'  ! c\ns = 'abc' // &  ! note\n  'd!e'\nend subroutine foo\n"
+    try:
+        a, b = read(free, False), read(fixed, True, True)
+    except Exception as e:
+        return {"confirmed": True, "input": {"fixed": fixed}, "actual": f"{type(e).__name__}: {e}", "expected": "parses", "how": "real FortranReader(fixed=True)"}
+    if a != b:
+        return {"confirmed": True, "input": {"fixed": fixed, "free": free}, "actual": b, "expected": a, "how": "real FortranReader(fixed=True) vs the free-form rendering; inline comments on continued lines"}
+    return None
+
+
 def search(seed=0):
-    hit = limit_off_case()
+    hit = limit_off_case() or inline_comment_on_continued_line()
     if hit:
         return hit
     n = 0
